@@ -521,6 +521,19 @@ fn main() {
                     format!("left={} per_dc_mirrors_all={} recreated_swapped={}", t.len(), mirror, swapped)
                 })).unwrap_or("PANIC (perform_maintenance panicked)".into())
             }
+            // prepmeta <flags> <column count> <pk count>: a PREPARED result whose prepared metadata consists of just these three ints (then the body ends)
+            "prepmeta" => {
+                use bytes::BufMut;
+                let mut b: Vec<u8> = Vec::new();
+                b.put_i32(4);                       // kind = Prepared
+                b.put_u16(2); b.put_slice(b"id");   // statement id
+                b.put_u32(num(1) as u32); b.put_u32(num(2) as u32); b.put_u32(num(3) as u32);
+                let feats = scylla_cql::frame::protocol_features::ProtocolFeatures::default();
+                match scylla_cql::frame::response::result::deserialize_with_features(bytes::Bytes::from(b), None, &feats) {
+                    Ok(_) => "OK".to_string(),
+                    Err(_) => "ERR".to_string(),
+                }
+            }
             "token_new" => Token::new(num(1) as i64).value().to_string(),
             _ => "UNKNOWN".to_string(),
         };
